@@ -1,1 +1,544 @@
-fn main() {}
+//! C02 — Durable store: acknowledged writes survive any crash, in order.
+//!
+//! A real durable `TensorStore` (WAL + checkpoints) executes generated sequences of
+//! put_durable / delete_durable / sync / checkpoint over all key classes and value kinds, under
+//! every sync mode and with normal or tiny log-size limits. After every call the harness records
+//! the store's observable state (scan + get of every key). At generated crash points a crash
+//! image of the directory is taken (a) at every byte position (thorough) / a stratified set
+//! (quick) of the bytes the crashing call appended to the log and (b) at every crash-point hook
+//! inside checkpoint() and log rotation; the real recovery runs on each image and must yield
+//! exactly one of the recorded states not older than the last acknowledged write. The generated
+//! image continues the chain: more writes on the recovered store, up to three crashes.
+
+use nv_engine::crashkit::cut_points;
+use nv_engine::{main_for, pick, walframe, CaseCtx, Fail, PropDef, PropPart, Tier};
+use proptest::prelude::*;
+use serde::{Deserialize, Serialize};
+use std::cell::RefCell;
+use std::collections::BTreeMap;
+use std::path::{Path, PathBuf};
+use tensor_store::wal::{SyncMode, WalConfig};
+use tensor_store::{ScalarValue, SparseVector, TensorData, TensorStore, TensorValue};
+
+// ------------------------------------------------------------------ values and keys
+
+#[derive(Clone, Debug, Serialize, Deserialize)]
+enum Val {
+    Null,
+    Bool(bool),
+    Int(i64),
+    /// f64 by bits so that NaN payloads and -0.0 survive the replay file
+    Float(u64),
+    Str(String),
+    Bytes(Vec<u8>),
+    /// small dense vector (f32 bits)
+    Vec(Vec<u32>),
+    SparseVec(u8, Vec<(u8, u32)>),
+    Pointer(String),
+    Pointers(Vec<String>),
+}
+
+fn val_strategy() -> impl Strategy<Value = Val> {
+    let f = prop_oneof![
+        Just(0.0f64.to_bits()),
+        Just((-0.0f64).to_bits()),
+        Just(f64::NAN.to_bits()),
+        Just(f64::INFINITY.to_bits()),
+        Just(f64::NEG_INFINITY.to_bits()),
+        Just(1.5f64.to_bits()),
+        Just(f64::MIN_POSITIVE.to_bits()),
+        any::<u64>(),
+    ];
+    prop_oneof![
+        Just(Val::Null),
+        any::<bool>().prop_map(Val::Bool),
+        prop_oneof![Just(i64::MIN), Just(i64::MAX), Just(0i64), Just(-1i64), any::<i64>()].prop_map(Val::Int),
+        f.prop_map(Val::Float),
+        prop_oneof![Just(String::new()), "[a-z]{1,6}", Just("héllo wörld ✓".to_string())].prop_map(Val::Str),
+        prop::collection::vec(any::<u8>(), 0..12).prop_map(Val::Bytes),
+        prop::collection::vec(prop_oneof![Just(0u32), Just(1.0f32.to_bits()), Just((-2.5f32).to_bits()), any::<u32>()], 0..6).prop_map(Val::Vec),
+        (4u8..12, prop::collection::vec((0u8..4, prop_oneof![Just(1.0f32.to_bits()), Just(0.25f32.to_bits())]), 0..3)).prop_map(|(d, e)| Val::SparseVec(d, e)),
+        "[a-z]{1,5}".prop_map(Val::Pointer),
+        prop::collection::vec("[a-z]{1,4}", 0..3).prop_map(Val::Pointers),
+    ]
+}
+
+fn to_tensor_value(v: &Val) -> TensorValue {
+    match v {
+        Val::Null => TensorValue::Scalar(ScalarValue::Null),
+        Val::Bool(b) => TensorValue::Scalar(ScalarValue::Bool(*b)),
+        Val::Int(i) => TensorValue::Scalar(ScalarValue::Int(*i)),
+        Val::Float(b) => TensorValue::Scalar(ScalarValue::Float(f64::from_bits(*b))),
+        Val::Str(s) => TensorValue::Scalar(ScalarValue::String(s.clone())),
+        Val::Bytes(b) => TensorValue::Scalar(ScalarValue::Bytes(b.clone())),
+        Val::Vec(v) => TensorValue::Vector(v.iter().map(|b| f32::from_bits(*b)).collect()),
+        Val::SparseVec(d, e) => {
+            let mut dense = vec![0.0f32; *d as usize];
+            for (p, b) in e {
+                dense[*p as usize % *d as usize] = f32::from_bits(*b);
+            }
+            TensorValue::Sparse(SparseVector::from_dense(&dense))
+        },
+        Val::Pointer(p) => TensorValue::Pointer(p.clone()),
+        Val::Pointers(p) => TensorValue::Pointers(p.clone()),
+    }
+}
+
+/// What goes into the `_embedding` field of an embedding-class key.
+#[derive(Clone, Debug, Serialize, Deserialize)]
+enum Emb {
+    None,
+    /// 384-dim (the slab's dimension), more than half exact zeros so that a checkpoint stores it in
+    /// the exact sparse form; (position, f32 bits) of the non-zeros
+    Slab(Vec<(u16, u8)>),
+    /// a dimension the embedding slab does not take: kept in metadata only
+    OffDim(Vec<u32>),
+}
+
+fn emb_strategy() -> impl Strategy<Value = Emb> {
+    prop_oneof![
+        1 => Just(Emb::None),
+        4 => prop::collection::vec((0u16..384, 0u8..4), 0..40).prop_map(Emb::Slab),
+        1 => prop::collection::vec(any::<u32>(), 1..5).prop_map(Emb::OffDim),
+    ]
+}
+
+const KEYS: [&str; 10] = ["plain", "user:1", "emb:a", "emb:b", "node:1", "edge:7", "table:t:1", "_cache:x", "emb:c", "k"];
+
+#[derive(Clone, Debug, Serialize, Deserialize)]
+enum Op {
+    Put { key: u8, fields: Vec<(u8, Val)>, emb: Emb },
+    Delete { key: u8 },
+    Sync,
+    Checkpoint,
+}
+
+#[derive(Clone, Debug, Serialize, Deserialize)]
+struct Scripted {
+    op: Op,
+    crash: Option<u16>,
+}
+
+#[derive(Clone, Debug, Serialize, Deserialize)]
+struct Case {
+    /// 0 immediate, 1 batched(batch), 2 manual
+    mode: u8,
+    batch: u8,
+    /// tiny max_size_bytes so that the log rotates
+    tiny_log: bool,
+    ops: Vec<Scripted>,
+}
+
+fn op_strategy() -> impl Strategy<Value = Op> {
+    prop_oneof![
+        12 => (0u8..10, prop::collection::vec((0u8..4, val_strategy()), 0..3), emb_strategy()).prop_map(|(key, fields, emb)| Op::Put { key, fields, emb }),
+        4 => (0u8..10).prop_map(|key| Op::Delete { key }),
+        2 => Just(Op::Sync),
+        2 => Just(Op::Checkpoint),
+    ]
+}
+
+fn case_strategy(t: Tier) -> impl Strategy<Value = Case> {
+    let max = t.pick(30usize, 40usize);
+    (
+        prop_oneof![5 => Just(0u8), 2 => Just(1u8), 2 => Just(2u8)],
+        2u8..6,
+        prop::bool::weighted(0.12),
+        prop::collection::vec((op_strategy(), prop::option::weighted(0.18, any::<u16>())), 1..max),
+    )
+        .prop_map(|(mode, batch, tiny_log, ops)| Case {
+            mode,
+            batch,
+            tiny_log,
+            ops: ops.into_iter().map(|(op, crash)| Scripted { op, crash }).collect(),
+        })
+}
+
+fn tensor_of(key: &str, fields: &[(u8, Val)], emb: &Emb) -> TensorData {
+    let mut d = TensorData::new();
+    for (n, v) in fields {
+        d.set(format!("f{n}"), to_tensor_value(v));
+    }
+    if key.starts_with("emb:") {
+        match emb {
+            Emb::None => {},
+            Emb::Slab(nz) => {
+                let mut v = vec![0.0f32; 384];
+                for (p, c) in nz {
+                    v[*p as usize] = [1.0f32, -2.5, 0.125, 3.0e-3][*c as usize % 4];
+                }
+                d.set("_embedding", TensorValue::Vector(v));
+            },
+            Emb::OffDim(b) => d.set("_embedding", TensorValue::Vector(b.iter().map(|x| f32::from_bits(*x)).collect())),
+        }
+    }
+    d
+}
+
+// ------------------------------------------------------------------ observable state
+
+/// key -> field -> canonical bytes (bitcode of the value: floats bit-exact, field order irrelevant)
+type State = BTreeMap<String, BTreeMap<String, Vec<u8>>>;
+
+fn observe(store: &TensorStore) -> State {
+    let mut st = State::new();
+    let mut keys = store.scan("");
+    keys.sort();
+    for k in keys {
+        if k.starts_with("_cache:") {
+            continue; // documented as non-durable
+        }
+        if let Ok(d) = store.get(&k) {
+            let mut f = BTreeMap::new();
+            for (name, v) in d.fields_iter() {
+                f.insert(name.clone(), bitcode::serialize(v).unwrap_or_default());
+            }
+            st.insert(k, f);
+        }
+    }
+    st
+}
+
+fn diff(a: &State, b: &State) -> String {
+    let mut out = Vec::new();
+    for k in a.keys().chain(b.keys()) {
+        if a.get(k) != b.get(k) && !out.iter().any(|x: &String| x.starts_with(&format!("{k}:"))) {
+            let side = |s: &State| match s.get(k) {
+                None => "absent".to_string(),
+                Some(f) => format!("{} field(s) {:?}", f.len(), f.keys().collect::<Vec<_>>()),
+            };
+            out.push(format!("{k}: recovered {} / expected {}", side(a), side(b)));
+        }
+    }
+    out.join("; ")
+}
+
+// ------------------------------------------------------------------ crash images
+
+thread_local! {
+    /// while a crashing call runs: (directory of the live files, probe directory, captured sites)
+    static CAPTURE: RefCell<Option<Capture>> = const { RefCell::new(None) };
+}
+
+struct Capture {
+    live: PathBuf,
+    probes: PathBuf,
+    sites: Vec<(&'static str, PathBuf)>,
+}
+
+fn copy_dir(from: &Path, to: &Path) {
+    let _ = std::fs::create_dir_all(to);
+    if let Ok(rd) = std::fs::read_dir(from) {
+        for e in rd.flatten() {
+            if e.path().is_file() {
+                let _ = std::fs::copy(e.path(), to.join(e.file_name()));
+            }
+        }
+    }
+}
+
+fn on_crash_point(site: &'static str) {
+    CAPTURE.with(|c| {
+        if let Some(cap) = c.borrow_mut().as_mut() {
+            let dst = cap.probes.join(format!("site-{}-{}", cap.sites.len(), site));
+            copy_dir(&cap.live, &dst);
+            cap.sites.push((site, dst));
+        }
+    });
+}
+
+fn wal_config(case: &Case) -> WalConfig {
+    let mut c = WalConfig::default();
+    c.sync_mode = match case.mode % 3 {
+        0 => SyncMode::Immediate,
+        1 => SyncMode::Batched { max_entries: case.batch.max(2) as usize },
+        _ => SyncMode::Manual,
+    };
+    if case.tiny_log {
+        c.max_size_bytes = 2048;
+    }
+    c
+}
+
+struct Driver<'a> {
+    case: &'a Case,
+    root: nv_engine::scratch::Dir,
+    gen: u32,
+    /// directory holding the live store's files (wal, rotated logs, snapshot)
+    live: PathBuf,
+    store: TensorStore,
+    /// observable states: states[0] = state at (re)start, states[j] = after the j-th call since then
+    states: Vec<State>,
+    /// number of calls (since restart) whose effects are acknowledged as durable
+    acked: usize,
+    rotated: bool,
+    torn_tail_pending: bool,
+    torn_tail_then_append: bool,
+}
+
+fn wal_path(dir: &Path) -> PathBuf {
+    dir.join("store.wal")
+}
+fn snap_path(dir: &Path) -> PathBuf {
+    dir.join("store.snap")
+}
+fn flen(p: &Path) -> usize {
+    std::fs::metadata(p).map(|m| m.len() as usize).unwrap_or(0)
+}
+
+impl<'a> Driver<'a> {
+    fn new(case: &'a Case) -> Result<Self, Fail> {
+        let root = nv_engine::scratch::Dir::new("c02");
+        let live = root.join("gen0");
+        std::fs::create_dir_all(&live).map_err(|e| Fail::new("harness", e.to_string()))?;
+        let store = TensorStore::open_durable(wal_path(&live), wal_config(case)).map_err(|e| Fail::new("harness", e.to_string()))?;
+        let st = observe(&store);
+        Ok(Self { case, root, gen: 0, live, store, states: vec![st], acked: 0, rotated: false, torn_tail_pending: false, torn_tail_then_append: false })
+    }
+
+    fn exec(&mut self, op: &Op, ctx: &mut CaseCtx) {
+        let mut synced = false;
+        match op {
+            Op::Put { key, fields, emb } => {
+                let k = KEYS[*key as usize % KEYS.len()];
+                let _ = self.store.put_durable(k, tensor_of(k, fields, emb));
+                ctx.label(format!("put:{}", k.split(':').next().unwrap_or("plain")));
+            },
+            Op::Delete { key } => {
+                let k = KEYS[*key as usize % KEYS.len()];
+                if self.store.delete_durable(k).is_ok() {
+                    ctx.label("delete of an existing key");
+                }
+            },
+            Op::Sync => {
+                synced = self.store.sync().is_ok();
+            },
+            Op::Checkpoint => {
+                if self.store.checkpoint(snap_path(&self.live)).is_ok() {
+                    ctx.label("checkpoint");
+                }
+            },
+        }
+        self.states.push(observe(&self.store));
+        if self.case.mode % 3 == 0 || synced {
+            self.acked = self.states.len() - 1;
+        }
+        if wal_path(&self.live).with_file_name("store.wal.1").exists() && !self.rotated {
+            self.rotated = true;
+            ctx.label("log rotated");
+        }
+    }
+
+    /// Run the real recovery on a crash image and compare with the admissible states.
+    fn check_image(&self, dir: &Path, lo: usize, hi: usize, ctx: &mut CaseCtx, what: &str) -> Result<Option<(TensorStore, usize)>, Fail> {
+        let suffix = if self.torn_tail_then_append { "-after-torn-tail" } else { "" };
+        let store = match TensorStore::recover(wal_path(dir), &wal_config(self.case), Some(&snap_path(dir))) {
+            Ok(s) => s,
+            Err(e) => {
+                ctx.fail(format!("recover-failed{suffix}"), format!("{what}: TensorStore::recover failed on a crash image of the store's own files: {e}"))?;
+                return Ok(None);
+            },
+        };
+        let got = observe(&store);
+        for j in (lo..=hi.min(self.states.len() - 1)).rev() {
+            if self.states[j] == got {
+                return Ok(Some((store, j)));
+            }
+        }
+        // classify
+        let older = (0..lo).rev().find(|j| self.states[*j] == got);
+        let sig = if self.rotated && self.case.tiny_log {
+            "rotation-drops-log".to_string()
+        } else if older.is_some() {
+            format!("acknowledged-write-lost{suffix}")
+        } else {
+            format!("state-is-no-prefix{suffix}")
+        };
+        let detail = match older {
+            Some(j) => format!("the recovered state equals the state after call {j}, but calls up to {lo} were acknowledged"),
+            None => format!("the recovered state equals none of the states after calls {lo}..={hi}; versus the newest: {}", diff(&got, &self.states[hi.min(self.states.len() - 1)])),
+        };
+        ctx.fail(sig, format!("{what}: {detail}"))?;
+        Ok(None)
+    }
+}
+
+fn run_case(case: &Case, ctx: &mut CaseCtx, all_cuts: bool) -> Result<(), Fail> {
+    tensor_store::verif_hooks::set_crash_callback(Some(on_crash_point));
+    let mut d = Driver::new(case)?;
+    let mut crashes = 0;
+    let mut nontrivial = false;
+    ctx.label(["mode:immediate", "mode:batched", "mode:manual"][case.mode as usize % 3]);
+    if case.tiny_log {
+        ctx.label("tiny log limit");
+    }
+    for sc in &case.ops {
+        let crashing = sc.crash.is_some() && crashes < 3;
+        let before = flen(&wal_path(&d.live));
+        let acked_before = d.acked;
+        let issued_before = d.states.len() - 1;
+        let probes = d.root.join(&format!("probes{}", d.gen));
+        if crashing {
+            let _ = std::fs::remove_dir_all(&probes);
+            let _ = std::fs::create_dir_all(&probes);
+            CAPTURE.with(|c| *c.borrow_mut() = Some(Capture { live: d.live.clone(), probes: probes.clone(), sites: Vec::new() }));
+        }
+        let rotated_before = d.rotated;
+        d.exec(&sc.op, ctx);
+        let cap = CAPTURE.with(|c| c.borrow_mut().take());
+        let after = flen(&wal_path(&d.live));
+        if after > before && d.torn_tail_pending {
+            d.torn_tail_then_append = true;
+            ctx.label("appended after a torn tail");
+        }
+        if !crashing {
+            continue;
+        }
+        let cap = cap.unwrap();
+        let issued_after = d.states.len() - 1;
+        // candidate crash images: (directory, lowest admissible state, highest, description, inside-record?)
+        let mut images: Vec<(PathBuf, usize, usize, String, bool)> = Vec::new();
+        for (site, dir) in &cap.sites {
+            images.push((dir.clone(), acked_before, issued_after, format!("crash at hook {site} inside {:?}", op_name(&sc.op)), false));
+        }
+        let same_file = after >= before && d.rotated == rotated_before && !matches!(sc.op, Op::Checkpoint);
+        if same_file && after > before {
+            let bytes = std::fs::read(wal_path(&d.live)).map_err(|e| Fail::new("harness", e.to_string()))?;
+            let mut bounds: Vec<usize> = walframe::boundaries(&bytes[before..]).into_iter().map(|b| b + before).collect();
+            bounds.retain(|b| *b > before && *b <= after);
+            for c in cuts_for(before, after, all_cuts, &bounds) {
+                let dir = probes.join(format!("cut-{c}"));
+                copy_dir(&d.live, &dir);
+                std::fs::write(wal_path(&dir), &bytes[..c]).map_err(|e| Fail::new("harness", e.to_string()))?;
+                let complete = c == after;
+                // the crashing call was issued: a prefix that includes it is admissible even though
+                // the call had not returned
+                let hi = issued_after;
+                let _ = issued_before;
+                // a call whose bytes all survived is acknowledged under immediate sync
+                let lo = if complete && case.mode % 3 == 0 { issued_after } else { acked_before };
+                let inside = !bounds.contains(&c) && c != before;
+                images.push((dir, lo, hi.max(lo), format!("crash at byte {c} of the log ({:?} wrote {before}..{after})", op_name(&sc.op)), inside));
+            }
+        }
+        if images.is_empty() {
+            // the call wrote nothing to disk: the image is the directory as it is
+            let dir = probes.join("asis");
+            copy_dir(&d.live, &dir);
+            images.push((dir, d.acked.min(acked_before), issued_after, format!("crash right after {:?}", op_name(&sc.op)), false));
+        }
+        crashes += 1;
+        ctx.label("crash");
+        let chosen = pick(sc.crash.unwrap(), images.len());
+        let mut next: Option<(TensorStore, usize, PathBuf, bool)> = None;
+        for (i, (dir, lo, hi, what, inside)) in images.iter().enumerate() {
+            let r = d.check_image(dir, *lo, *hi, ctx, what)?;
+            if ctx.known_hit() {
+                return Ok(());
+            }
+            if i == chosen {
+                if let Some((store, j)) = r {
+                    next = Some((store, j, dir.clone(), *inside));
+                }
+            }
+            if what.contains("hook") {
+                ctx.label("crash inside checkpoint/rotation");
+                nontrivial = true;
+            }
+            if *inside {
+                nontrivial = true;
+            }
+        }
+        let Some((store, j, dir, inside)) = next else { return Ok(()) };
+        // continue on the recovered store: its files become the live files
+        d.gen += 1;
+        let live = d.root.join(&format!("gen{}", d.gen));
+        let _ = std::fs::remove_dir_all(&live);
+        drop(store);
+        std::fs::rename(&dir, &live).map_err(|e| Fail::new("harness", e.to_string()))?;
+        let store = match TensorStore::recover(wal_path(&live), &wal_config(case), Some(&snap_path(&live))) {
+            Ok(s) => s,
+            Err(e) => return Err(Fail::new("recover-failed-second-open", format!("recovering the same image twice failed the second time: {e}"))),
+        };
+        let st = observe(&store);
+        if st != d.states[j] {
+            ctx.fail("recovery-not-repeatable", format!("recovering the same crash image twice gave different states: {}", diff(&st, &d.states[j])))?;
+        }
+        d.live = live;
+        d.store = store;
+        d.states = vec![st];
+        d.acked = 0;
+        d.rotated = wal_path(&d.live).with_file_name("store.wal.1").exists();
+        if inside {
+            d.torn_tail_pending = true;
+            ctx.label("crash inside a record");
+        }
+        if crashes >= 2 {
+            ctx.label("second crash after writes on a recovered store");
+            nontrivial = true;
+        }
+        let _ = std::fs::remove_dir_all(&probes);
+    }
+    if nontrivial {
+        ctx.set_nontrivial();
+    }
+    Ok(())
+}
+
+/// Every byte for small appends; for large ones (a 1.6 KB vector record) every byte within 12 of a
+/// record boundary or header plus ~150 evenly spread interior positions.
+fn cuts_for(before: usize, after: usize, all: bool, bounds: &[usize]) -> Vec<usize> {
+    if !all {
+        return cut_points(before, after, false, 3, bounds);
+    }
+    if after - before <= 260 {
+        return cut_points(before, after, true, 0, bounds);
+    }
+    let mut v: Vec<usize> = Vec::new();
+    let mut marks: Vec<usize> = bounds.to_vec();
+    marks.push(before);
+    marks.push(after);
+    for b in marks {
+        for x in b.saturating_sub(12)..=b + 12 {
+            if x >= before && x <= after {
+                v.push(x);
+            }
+        }
+    }
+    let span = after - before;
+    for k in 1..150 {
+        v.push(before + span * k / 150);
+    }
+    v.sort_unstable();
+    v.dedup();
+    v
+}
+
+fn op_name(op: &Op) -> &'static str {
+    match op {
+        Op::Put { .. } => "put_durable",
+        Op::Delete { .. } => "delete_durable",
+        Op::Sync => "sync",
+        Op::Checkpoint => "checkpoint",
+    }
+}
+
+fn main() {
+    main_for(PropDef {
+        id: "C02",
+        level: "fault_enumeration",
+        rule: "sequences of 1..30 (quick) / 1..40 (thorough) put_durable/delete_durable/sync/checkpoint calls over 10 keys of all classes (plain, emb: with slab-dimension and off-dimension vectors, node:/edge:, table:, _cache:) and all value kinds, sync mode drawn from immediate/batched/manual, 12% with a 2 KB log limit (rotation), up to 3 crash points; at each crash: every hook site inside checkpoint()/rotate() plus every byte (part allcuts, thorough) or record boundaries +-1/header offsets/3 interior points (quick) of the bytes the call appended; the generated image continues the chain. non-trivial = a crash strictly inside a record, inside checkpoint/rotation, or a second crash after writes on a recovered store; distinct = distinct generated sequence",
+        assumptions: vec![
+            "a crash keeps the bytes that reached the files (process-kill model: user-space buffers are lost, a dropped fsync is invisible) and, for the crashing call, any byte prefix of what it appended",
+            "oracle = the store's own observable state (scan + get of every key, floats bit-exact) recorded after every call; recovery must reproduce one of the recorded states not older than the last acknowledged call",
+            "acknowledged = returned under immediate sync, or issued before the last successful explicit sync under batched/manual",
+            "cache-prefixed keys are excluded (documented non-durable)",
+            "slab-dimension embeddings are generated with more than half exact zeros so that a checkpoint stores them in the exact sparse form (lossy tensor-train storage of dense long vectors belongs to C07)",
+        ],
+        parts: vec![
+            PropPart::new("crash", 1500, 60_000, case_strategy, |c: &Case, ctx: &mut CaseCtx| run_case(c, ctx, false)).shrink_iters(250).boxed(),
+            PropPart::new("crash_allcuts", 60, 6_000, case_strategy, |c: &Case, ctx: &mut CaseCtx| run_case(c, ctx, true)).shrink_iters(80).boxed(),
+        ],
+        children: vec![],
+    });
+}
